@@ -598,7 +598,7 @@ impl UnifiedCommandExecutor {
             Command::Server(server_cmd) => self.execute_server(server_cmd),
             Command::Stream(stream_cmd) => self.execute_stream(db, stream_cmd),
             Command::Scan(scan_cmd) => self.execute_scan(db, scan_cmd),
-            Command::Database(db_cmd) => self.execute_database(db_cmd),
+            Command::Database(db_cmd) => self.execute_database(db, db_cmd),
             Command::ConsumerGroup(cg_cmd) => self.execute_consumer_group(db, cg_cmd),
             Command::Persistence(persist_cmd) => self.execute_persistence(persist_cmd),
             Command::Bit(bit_cmd) => self.execute_bit(db, bit_cmd),
@@ -1517,9 +1517,7 @@ impl UnifiedCommandExecutor {
     }
     
     /// Execute database commands
-    fn execute_database(&self, cmd: DatabaseCommand) -> Result<RespFrame> {
-        let db = self.conn_context.as_ref().map(|c| c.db_index).unwrap_or(0);
-        
+    fn execute_database(&self, db: usize, cmd: DatabaseCommand) -> Result<RespFrame> {
         match cmd {
             DatabaseCommand::FlushDb => {
                 self.storage.flush_db(db)?;
